@@ -83,6 +83,12 @@ func runC15(t *testing.T, c *choice.Stream, r *Result, opt RunOpt) {
 	// ---- values ----
 	var vals []any
 	rows := gen.DrawRows(c, "rows")
+	if rt.Size > 0 && c.Bool("rows.huge", 1, 60) {
+		// a column whose wire image is just over 1, 2 or 4 MiB: whatever chunking,
+		// buffering or vectorised loop a build uses gets past its first boundary
+		rows = (c.Pick("rows.huge.mib", 1, 1, 2, 4)<<20)/rt.Size + c.Pick("rows.huge.plus", 1, 2, 17, 1000)
+		r.Probe("huge_column")
+	}
 	exhaustive := rt.Size <= 2 && (rt.Kind == refproto.KInt || rt.Kind == refproto.KUInt) && c.Bool("exhaustive", 1, 6)
 	if exhaustive {
 		n := 1 << (8 * rt.Size)
